@@ -21,14 +21,21 @@ def Deps.get (d : Deps) (k : String) : List String :=
 
 def Deps.has (d : Deps) (k : String) : Bool := d.any (fun p => p.1 == k)
 
-/-- `dependencies[k] = v` -/
-def Deps.set (d : Deps) (k : String) (v : List String) : Deps :=
+/-- overwrite the value stored under an existing key -/
+def Deps.replace (d : Deps) (k : String) (v : List String) : Deps :=
+  match d with
+  | [] => []
+  | (k', v') :: rest => if k' == k then (k, v) :: rest else (k', v') :: Deps.replace rest k v
+
+/-- insert a new key at its place in the ascending order -/
+def Deps.insert (d : Deps) (k : String) (v : List String) : Deps :=
   match d with
   | [] => [(k, v)]
-  | (k', v') :: rest =>
-    if k' == k then (k, v) :: rest
-    else if k < k' then (k, v) :: (k', v') :: rest
-    else (k', v') :: Deps.set rest k v
+  | (k', v') :: rest => if k < k' then (k, v) :: (k', v') :: rest else (k', v') :: Deps.insert rest k v
+
+/-- `dependencies[k] = v` -/
+def Deps.set (d : Deps) (k : String) (v : List String) : Deps :=
+  if d.has k then d.replace k v else d.insert k v
 
 /-- `dependencies[k]` used as an rvalue: inserts an empty set when `k` is missing -/
 def Deps.touch (d : Deps) (k : String) : Deps := if d.has k then d else d.set k []
@@ -49,21 +56,23 @@ def passOne (st : Deps × List String × Bool) (name : String) : Deps × List St
 def pass (d : Deps) (libs : List String) : Deps × List String × Bool :=
   d.keys.foldl passOne (d, libs, false)
 
-/-- `find_dependency_cycle(cycle, dependencies)`: depth-first search along the
-current path (no visited set); `fuel` bounds the path length. Returns the map
-(keys may have been inserted by `operator[]`) and the cycle if one was found. -/
-def findCycle : Nat → Deps → List String → List String → Deps × Option (List String)
-  -- arguments: fuel, map, current path (`cycle`), remaining dependencies of `cycle.back()` to try
-  | 0, d, _, _ => (d, none)
-  | _, d, _, [] => (d, none)
-  | fuel+1, d, path, x :: rest =>
+/-- `find_dependency_cycle(cycle, dependencies, visited)`: depth-first search along the
+current path; a library already searched (in `vis`) is skipped.  `fuel` bounds the
+number of calls.  Returns the map (keys may have been inserted by `operator[]`),
+the visited set and the cycle if one was found. -/
+def findCycle : Nat → Deps → List String → List String → List String → Deps × List String × Option (List String)
+  -- arguments: fuel, map, visited, current path (`cycle`), remaining dependencies of `cycle.back()` to try
+  | 0, d, vis, _, _ => (d, vis, none)
+  | _, d, vis, _, [] => (d, vis, none)
+  | fuel+1, d, vis, path, x :: rest =>
     if path.contains x then
-      (d, some (path.dropWhile (fun y => y != x) ++ [x]))
+      (d, vis, some (path.dropWhile (fun y => y != x) ++ [x]))
+    else if vis.contains x then findCycle fuel d vis path rest
     else
       let d := d.touch x
-      match findCycle fuel d (path ++ [x]) (d.get x) with
-      | (d', some c) => (d', some c)
-      | (d', none) => findCycle fuel d' path rest
+      match findCycle fuel d (x :: vis) (path ++ [x]) (d.get x) with
+      | (d', vis', some c) => (d', vis', some c)
+      | (d', vis', none) => findCycle fuel d' vis' path rest
 
 /-- the no-progress branch: for every library that still has dependencies, look
 for a cycle through it and erase that cycle's first edge -/
@@ -72,16 +81,19 @@ def breakOne (fuel : Nat) (st : Deps × List (String × String)) (name : String)
   if (d.get name).isEmpty then (d, broken)
   else
     let d := d.touch name
-    match findCycle fuel d [name] (d.get name) with
-    | (d', some (a :: b :: _)) => (d'.set a ((d'.get a).filter (fun x => x != b)), broken ++ [(a, b)])
-    | (d', _) => (d', broken)
+    match findCycle fuel d [] [name] (d.get name) with
+    | (d', _, some (a :: b :: _)) => (d'.set a ((d'.get a).filter (fun x => x != b)), broken ++ [(a, b)])
+    | (d', _, _) => (d', broken)
 
 def breakCycles (fuel : Nat) (d : Deps) : Deps × List (String × String) :=
   d.keys.foldl (breakOne fuel) (d, [])
 
-/-- generous fuel: every round either emits a library, erases an edge or inserts a key -/
-def fuelFor (d : Deps) : Nat :=
-  2 * (d.length + (d.map (fun p => p.2.length)).sum + 2) + 2
+/-- number of keys and of edges -/
+def Deps.edges (d : Deps) : Nat := (d.map (fun p => p.2.length)).sum
+
+/-- generous fuel: every round either emits a library, erases an edge or inserts a key
+(`c16_terminates` proves it is never exhausted) -/
+def fuelFor (d : Deps) : Nat := d.length + 3 * d.edges + 3
 
 structure Result where
   libs : List String
